@@ -506,7 +506,11 @@ func (r *Recomposer) recomp(v any, rv reflect.Value) {
 		rv.Set(reflect.ValueOf(v))
 
 	case reflect.Bool:
-		rv.Set(reflect.ValueOf(v))
+		if b, ok := v.(bool); ok {
+			rv.SetBool(b)
+		} else {
+			rv.Set(reflect.ValueOf(v))
+		}
 	case reflect.Int, reflect.Int8, reflect.Int16, reflect.Int32, reflect.Int64,
 		reflect.Uint, reflect.Uint8, reflect.Uint16, reflect.Uint32, reflect.Uint64,
 		reflect.Float32, reflect.Float64,
@@ -541,10 +545,12 @@ func (r *Recomposer) setValue(v any, rv reflect.Value, sf *reflect.StructField) 
 	case reflect.Bool:
 		if s, ok := v.(string); ok && sf != nil && strings.Contains(sf.Tag.Get("json"), ",string") {
 			if b, err := strconv.ParseBool(s); err == nil {
-				rv.Set(reflect.ValueOf(b))
+				rv.SetBool(b)
 			} else {
 				panic(err)
 			}
+		} else if b, ok := v.(bool); ok {
+			rv.SetBool(b)
 		} else {
 			rv.Set(reflect.ValueOf(v))
 		}
